@@ -51,6 +51,8 @@ func propC18(c *Check) {
 	c.freshVotersAreDistinct("R6")
 	c.Rule("R7", "a chain initialised from an exported state can execute its first block: the begin blocker does not fail when the block has no last commit (initial height above 1)")
 	c.hookFailureNeedsLastCommit("R7")
+	c.Rule("R8", "the order of a derived queue does not leak: the relayer voter queue is not exported and is rebuilt on import in voter-record order; where the running chain copies it in its (arrival) order into the persistent voter list of the group, it must be canonically ordered first")
+	c.derivedQueueOrder("R8")
 	c.Rule("R1", "coverage: every collection of every keeper is read by its module's ExportGenesis and written by its InitGenesis, or is a derived index that InitGenesis rebuilds; every GenesisState field is assigned on export and consumed on import")
 	c.Rule("R2", "derived data obeys the runtime guards: InitGenesis ranks / indexes only Pending/Active validators, ranks only positive power, records only Active validators in the validator set, and rebuilds the voter queue from the voter status")
 	c.Rule("R3", "the exported validator set is LockingKeeper.ActiveValidators, which walks ValidatorSet and reports the recorded power and the validator's key")
